@@ -51,6 +51,74 @@ def r12_1(ck: Check) -> None:
                     "stored: %s" % "; ".join(show(e.value)[:100] for e in st), summ.fi.loc)
 
 
+def r12_5(ck: Check) -> None:
+    """the worker process and the plumbing between it and the watcher: the scrypt stage is computed over exactly the summary and height the
+    watcher assembled, every nonce is tried in turn, and each kind of worker message reaches its handler"""
+    MN = "skepticoin.mining.Miner."
+    s = ck.summ(MN + "__call__", 0)
+    sp = Spec(s, ("self",))
+    inp = [e for e in s.events if e.kind == "call" and not e.chain and MN + "get_scrypt_input" in e.targets]
+    hsh = [e for e in s.events if e.kind == "call" and not e.chain and CONS + "construct_summary_hash" in e.targets]
+    out = [e for e in s.events if e.kind == "call" and not e.chain and MN + "send_message" in e.targets]
+    construct = "Miner: scrypt_output = construct_summary_hash(summary, height) of exactly the pair received for this nonce; nonce += 1 mod 2**32"
+    ok = False
+    detail = ""
+    if len(inp) == 1 and len(hsh) == 1 and len(out) == 1 and len(inp[0].term[2]) == 1 and inp[0].term[2][0][0] == "lv":
+        pair = inp[0].term
+        from ..engine.terms import mk_sub
+        ok = (hsh[0].term[2] == (mk_sub(pair, C(0)), mk_sub(pair, C(1))) and out[0].term[2] == (C("scrypt_output"), hsh[0].term)
+              and inp[0].seq < hsh[0].seq < out[0].seq and all(e.loops and not e.loops[-1][2] and not residual(e, ()) for e in (inp[0], hsh[0], out[0])))
+        nm = inp[0].term[2][0][1]
+        from .common import loop_updates
+        head, ups, _fi = loop_updates(ck, MN + "__call__", 0)
+        want = Spec(s, ("self",), extra={"n": ("lv", nm, 0)}).term("(n + 1) % (1 << 32)")
+        if ups.get(nm) != want:
+            ok = False
+            detail = "nonce update is %s" % (show(ups[nm]) if nm in ups else None)
+    if ok:
+        ck.ok("R12.5", construct, "", hsh[0].loc)
+    else:
+        ck.violated("R12.5", construct, "%s %s" % ([e.describe()[:120] for e in inp + hsh + out], detail), s.fi.loc)
+    g = ck.summ(MN + "get_scrypt_input", 0)
+    spg = Spec(g, ("self", "nonce"))
+    req = [e for e in g.events if e.kind == "call" and not e.chain and MN + "send_message" in e.targets]
+    construct = "Miner.get_scrypt_input: asks for the candidate of this nonce and returns the (summary, height) answered"
+    from ..engine.match import function_value
+    v = function_value(g)
+    ans = spg.term("self.wait_for_message('scrypt_input')")
+    from ..engine.terms import mk_sub as _ms
+    if len(req) == 1 and req[0].term[2] == (C("request_scrypt_input"), spg.term("nonce")) and v in (("tuple", (_ms(ans, C(0)), _ms(ans, C(1)))), ans):
+        ck.ok("R12.5", construct, "", g.fi.loc)
+    else:
+        ck.violated("R12.5", construct, "request %s; returns %s" % ([show(e.term)[:100] for e in req], show(v)[:120] if v is not None else None), g.fi.loc)
+    w = ck.summ(MW + "handle_received_message", 0)
+    spw = Spec(w, ("self", "item"))
+    table = None
+    from ..engine.terms import subterms
+    for e in w.events:
+        for t in subterms(e.term):
+            if isinstance(t, tuple) and t and t[0] == "dict" and len(t) > 1:
+                table = t
+    construct = "MinerWatcher: 'request_scrypt_input' -> handle_request_scrypt_input_message, 'scrypt_output' -> handle_scrypt_output_message"
+    want_tab = {C("request_scrypt_input"): ("a", spw.term("self"), "handle_request_scrypt_input_message"),
+                C("scrypt_output"): ("a", spw.term("self"), "handle_scrypt_output_message")}
+    got_tab = dict(table[1]) if table is not None and isinstance(table[1], tuple) else None
+    if got_tab == want_tab:
+        ck.ok("R12.5", construct, "", w.fi.loc)
+    else:
+        ck.violated("R12.5", construct, "dispatch table is %s" % (show(table)[:200] if table is not None else None), w.fi.loc)
+    gs = ck.summ(CM + "get_state", 0)
+    spg2 = Spec(gs, ("self",))
+    v2 = function_value(gs)
+    construct = "ChainManager.get_state: (served state, the pool) read together under the lock"
+    rets = gs.returns()
+    if v2 in (spg2.term("(self.coinstate, self.transaction_pool)"), spg2.term("(self.coinstate, list(self.transaction_pool))"), spg2.term("(self.coinstate, self.transaction_pool[:])"),
+              spg2.term("(self.coinstate, self.transaction_pool.copy())")) and rets and all(spg2.term("self.lock") in r.withs for r in rets):
+        ck.ok("R12.5", construct, "users of the returned list do not mutate it (R13.2)", gs.fi.loc)
+    else:
+        ck.violated("R12.5", construct, "returns %s" % (show(v2)[:160] if v2 is not None else None), gs.fi.loc)
+
+
 def exact_guard(ck: Check, rule: str, summ, spec: Spec, reject: str, what: str, context=()) -> None:  # type: ignore
     """every disjunct of `reject` is rejected, AND no related guard rejects more than `reject` (equality / boundary values are accepted)."""
     from ..engine.match import disj_atoms
@@ -188,6 +256,7 @@ def check(ck: Check) -> None:
     from .c02 import r02_2
     ck.run("R02.2", "fees = sum over ALL included transactions of (inputs - outputs)", lambda: r02_2(ck))
     ck.run("R12.4", "found-block handler: adopt, then publish", lambda: r12_4(ck))
+    ck.run("R12.5", "worker loop and watcher plumbing", lambda: r12_5(ck))
     from .c09 import r09_8
     ck.run("R09.8", "broadcast reaches every active peer (a failing peer does not end the fan-out)", lambda: r09_8(ck))
     from .c15 import r15_3
